@@ -93,14 +93,23 @@ pub fn drive(spec: CheckSpec) -> i32 {
   let mut seen_crash: BTreeSet<u64> = BTreeSet::new();
   for (k, why) in &agg.crashed {
     if !seen_crash.insert(*k) { continue; }
-    match run_single(spec.worker_args.clone(), *k) {
+    let bb = format!("/dev/shm/mechsim-blackbox-{}-{}.json", std::process::id(), k);
+    let mut wa = spec.worker_args.clone();
+    wa.push("--blackbox".into()); wa.push(bb.clone());
+    match run_single(wa, *k) {
       Err(why2) => {
+        // the worker wrote what it was about to do before it died
+        let boxed: J = std::fs::read_to_string(&bb).ok().and_then(|t| serde_json::from_str(&t).ok()).unwrap_or(J::Null);
+        let what = boxed["mutation"]["label"].as_str().map(|s| format!(" while feeding: {}", s)).unwrap_or_default();
+        let mut replay = if boxed.is_object() { boxed.clone() } else { json!({"world": spec.world, "regenerate": true, "worker_args": spec.worker_args}) };
+        if let Some(o) = replay.as_object_mut() { o.insert("seed".into(), json!(spec.seed)); o.insert("run".into(), json!(k)); o.insert("death".into(), json!(why2)); o.insert("first_death".into(), json!(why)); }
         violations.push(json!({
           "property": spec.property, "class": "host-aborted",
           "signature": format!("host-aborted|process|{}", classify_death(&why2)),
-          "summary": format!("run {} killed its worker process twice: {}", k, why2),
-          "replay": {"world": spec.world, "seed": spec.seed, "run": k, "regenerate": true, "worker_args": spec.worker_args, "death": why2, "first_death": why},
+          "summary": format!("run {} killed its worker process twice{}: {}", k, what, why2),
+          "replay": replay,
         }));
+        std::fs::remove_file(&bb).ok();
       }
       Ok(_) => { eprintln!("HARNESS-ERROR: run {} killed a worker ({}) but survived when re-executed alone", k, why); harness_trouble = true; }
     }
